@@ -42,6 +42,11 @@ type scenario struct {
 	Scfg cfg    `json:"scfg"`
 	Dir  string `json:"dir"`
 	Len  int    `json:"len"`
+	// Decoy: after this connection's handshake a second connection is made from the same
+	// dialer parameters (same Acknowledge object, as an application with one Dialer would)
+	// to a server with other parameters; connections are independent, so the trace of this
+	// connection must not change.
+	Decoy bool `json:"decoy,omitempty"`
 }
 
 type event map[string]any
@@ -82,6 +87,13 @@ func response(handle uint32, pad int) *ua.ReadResponse {
 	}
 }
 
+func swapBuf(b uint32) uint32 {
+	if b <= 16384 {
+		return 65535
+	}
+	return 8192
+}
+
 // base sizes (encoded message size with no padding), measured on the wire once (calibrate)
 var baseReq, baseResp int
 
@@ -115,7 +127,8 @@ func run(sc scenario) (trace []event, err error) {
 		}
 		return chanpair.Pass(f)
 	}
-	p, err := chanpair.Open(chanpair.Opts{ClientACK: ackOf(sc.Ccfg), ServerACK: ackOf(sc.Scfg), Tap: tap,
+	cack := ackOf(sc.Ccfg)
+	p, err := chanpair.Open(chanpair.Opts{ClientACK: cack, ServerACK: ackOf(sc.Scfg), Tap: tap,
 		RequestTimeout: 10 * time.Second, NoOpen: true})
 	if err != nil {
 		return nil, fmt.Errorf("pair: %w", err)
@@ -181,6 +194,17 @@ func run(sc scenario) (trace []event, err error) {
 		case <-time.After(wait):
 			return nil
 		}
+	}
+
+	if sc.Decoy {
+		o := sc.Scfg
+		o.Rb, o.Sb = swapBuf(o.Rb), swapBuf(o.Sb)
+		o.Mm, o.Mc = 1<<21, 512
+		d, err := chanpair.Open(chanpair.Opts{ClientACK: cack, ServerACK: ackOf(o), NoOpen: true})
+		if err != nil {
+			return nil, fmt.Errorf("decoy pair: %w", err)
+		}
+		defer d.Close()
 	}
 
 	// OpenSecureChannel is the first message pair on the connection
